@@ -120,7 +120,9 @@ static void do_step(Run &R, int w, int salt) {
             int lost = w == W_DECODE_DATA ? salt % g.k : g.k + salt % g.m;
             std::vector<const std::vector<uint8_t> *> frs; uint64_t pm = 0;
             for (int i = 0; i < n; i++) if (i != lost) { frs.push_back(&R.s.frags[i]); pm |= 1ull << i; }
-            FragSet fs; fs.build(frs, {});
+            std::vector<int> al(frs.size(), 0);
+            for (size_t ai = 0; ai < al.size(); ai++) al[ai] = ((salt + (int)ai) % 3 == 0) ? 1 + (salt + (int)ai) % 15 : 0;     // some unaligned inputs: the library re-aligns into buffers it must free on the failure path too
+            FragSet fs; fs.build(frs, al);
             DecodeOut o = decode(R.desc, fs, R.s.fraglen, 0);
             rc = o.rc; what = "decode";
             bool demand = R.real && !(g.backend == ref::B_ISA_V && !ref::isa_first_k_invertible(g, pm));
@@ -135,7 +137,9 @@ static void do_step(Run &R, int w, int salt) {
             int lost = w == W_RECON_DATA ? salt % g.k : g.k + salt % g.m;
             std::vector<const std::vector<uint8_t> *> frs; uint64_t pm = 0;
             for (int i = 0; i < n; i++) if (i != lost) { frs.push_back(&R.s.frags[i]); pm |= 1ull << i; }
-            FragSet fs; fs.build(frs, {});
+            std::vector<int> al(frs.size(), 0);
+            for (size_t ai = 0; ai < al.size(); ai++) al[ai] = ((salt + (int)ai) % 3 == 0) ? 1 + (salt + (int)ai) % 15 : 0;     // some unaligned inputs: the library re-aligns into buffers it must free on the failure path too
+            FragSet fs; fs.build(frs, al);
             ReconOut o = reconstruct(R.desc, fs, R.s.fraglen, lost);
             rc = o.rc; what = "reconstruct";
             bool demand = R.real && !(g.backend == ref::B_ISA_V && !ref::isa_first_k_invertible(g, pm));
